@@ -483,3 +483,6 @@ Proof.
   { rewrite Ek. replace 39 with (j + (39 - j)) at 2 by lia. rewrite Z.pow_add_r by lia. ring. }
   rewrite Ee, E2 in E1. vm_compute in E1. discriminate.
 Qed.
+
+Lemma repr128_inhabited : repr128 (M - 1) /\ repr128 0.
+Proof. split; split; (discriminate || reflexivity). Qed.
